@@ -2,10 +2,14 @@
    closed by `exact`.  The full statement C12_statement (Proofs/Idna_Hyp.v; relative to AdapterOK and the Punycode
    round trip PunyRT, outside Known_C12) is REFUTED as written (C12_statement_refuted: F-C10-1, a label whose Punycode
    form is longer than 2000); the corrected statement C12_statement2 (Proofs/Idna_C10b_Stmt.v, also outside
-   Known_C10_long) is not proved; see theorem_notes in tools/props_d/C12.py. *)
+   Known_C10_long) is not proved - and is itself FALSE for an abstract adapter (C12_statement2_refuted: its adapter premises
+   miss MapPrefix); the statement with the premises AdapterUSV and MapPrefix added is C12_statement3
+   (Proofs/Idna_C12b_Stmt3.v), of which C12_ascii_form proves: the ASCII form is a fixed point of ToASCII and ToUnicode
+   reports no error for it; see theorem_notes in tools/props_d/C12.py. *)
 From RU Require Import Base.Prelude Base.Utf8 Base.Utf8Facts Base.U32_c13 Gen.Tables Model.Punycode Model.Uts46
   Proofs.Idna_Sim Proofs.Idna_Api Proofs.Idna_Known Proofs.Idna_Hyp Proofs.Idna_C12 Proofs.Idna_Tables Proofs.Idna_PunyRT
-  Proofs.Idna_C10b_Long Proofs.Idna_C10b_Stmt Proofs.Idna_C10b_AsciiInner Proofs.Idna_C10b_AsciiWalk Proofs.Idna_C12_Ascii.
+  Proofs.Idna_C10b_Long Proofs.Idna_C10b_Stmt Proofs.Idna_C10b_AsciiInner Proofs.Idna_C10b_AsciiWalk Proofs.Idna_C12_Ascii
+  Proofs.Idna_C10_Inner Proofs.Idna_WalkEnc Proofs.Idna_C10c_Drun Proofs.Idna_C10c_Example Proofs.Idna_C10c_Refute Proofs.Idna_C12b_Stmt3.
 
 (* the four clauses on names of the fastest tier (lower-case letters and dots), every adapter *)
 Theorem C12_fast_partial : forall A cfg d deny hy p, bytes d -> fast_tier d d = None ->
@@ -64,6 +68,36 @@ Check C12_accepted_no_error : forall A cfg d deny hy b a bu t e, Redisc A cfg de
   to_ascii A cfg d deny hy DIgnore = Ok (b, a) ->
   to_unicode A cfg d deny hy = UI bu t e -> e = false.
 Print Assumptions C12_accepted_no_error.
+
+(* the ASCII form of an accepted name, every input (non-ASCII and xn-- labels included, INSIDE Known_C12 / Known_C11 too),
+   outside Known_C10_long (F-C10-1): ToASCII returns it unchanged (borrowed), ToUnicode reports no error for it - the
+   "no error" half of clause u_of_a - nor for the name itself.  Premises: the sampled adapter facts of C10_idem3 *)
+Theorem C12_ascii_form : forall A cfg, AdapterOK A -> AdapterUSV A -> NvNoTrunc A -> NvIdem A -> AsciiNoMark A -> MapPrefix A ->
+  forall d deny hy b a, bytes d -> valid_deny deny ->
+  to_ascii A cfg d deny hy DIgnore = Ok (b, a) -> Known_C10_long a = false ->
+  to_ascii A cfg a deny hy DIgnore = Ok (true, a) /\
+  ui_err (to_unicode A cfg a deny hy) = false /\ ui_err (to_unicode A cfg d deny hy) = false.
+Proof. exact c12_ascii_form. Qed.
+Check C12_ascii_form : forall A cfg, AdapterOK A -> AdapterUSV A -> NvNoTrunc A -> NvIdem A -> AsciiNoMark A -> MapPrefix A ->
+  forall d deny hy b a, bytes d -> valid_deny deny ->
+  to_ascii A cfg d deny hy DIgnore = Ok (b, a) -> Known_C10_long a = false ->
+  to_ascii A cfg a deny hy DIgnore = Ok (true, a) /\
+  ui_err (to_unicode A cfg a deny hy) = false /\ ui_err (to_unicode A cfg d deny hy) = false.
+Print Assumptions C12_ascii_form.
+
+Example C12_ascii_form_premises_hold :
+  (AdapterOK lowsan /\ AdapterUSV lowsan /\ NvNoTrunc lowsan /\ NvIdem lowsan /\ AsciiNoMark lowsan /\ MapPrefix lowsan) /\
+  to_ascii lowsan true W_idem3 DENY_URL HCheck DIgnore = Ok (false, W_idem3_A) /\ Known_C10_long W_idem3_A = false /\
+  to_unicode lowsan true W_idem3_A DENY_URL HCheck = UI false [97; 46; 98; 252; 99; 104; 101; 114] false.
+Proof. split; [exact lowsan_premises|exact c12_ascii_form_premises_hold]. Qed.
+
+(* C12_statement2 is false for an abstract adapter that satisfies its four adapter premises (ctxad: U+00EA becomes U+00EB
+   exactly after "ab"): outside Known_C12, Known_C11 and Known_C10_long, ToUnicode of the ASCII form xn--ab-fja of
+   "ab" U+00EA reports an error.  A refutation of the STATEMENT (the premise MapPrefix is missing), not of the crate *)
+Theorem C12_statement2_refuted : exists A cfg, AdapterOK A /\ NvNoTrunc A /\ NvIdem A /\ AsciiNoMark A /\ ~ C12_statement2 A cfg.
+Proof. exact c12_statement2_refuted. Qed.
+Check C12_statement2_refuted : exists A cfg, AdapterOK A /\ NvNoTrunc A /\ NvIdem A /\ AsciiNoMark A /\ ~ C12_statement2 A cfg.
+Print Assumptions C12_statement2_refuted.
 
 (* the Punycode round trip that uts46.rs relies on (PunyRT, Proofs/Idna_Hyp.v) is a theorem, derived from the C13
    development: for a label of at most 1000 scalar values the internal encoder's output is read back by the char
